@@ -29,6 +29,7 @@ struct Effect {            // contract effect
   std::string op;          // read | write | writeobj | ret
   int ptr = -1, len = -1;  // argument indices
   int64_t size = -1;       // constant size (write) ; for ret: unused
+  int64_t off = 0;         // constant byte offset added to the pointer argument
   std::string prov;        // provenance of written bytes
   int64_t retlo = 0, rethi = 0;
 };
@@ -49,6 +50,7 @@ struct Config {
   int forkyLoop = 96;          // visits after which a loop whose body keeps forking on data is summarised
   int longLoop = 1200;         // visits of one block in one frame after which widening starts regardless of forks
   int frameForkWiden = 0;      // >0: widen at loop headers once a frame has forked more than this often
+  bool trackInit = false;      // report reads of never-written bytes of stack objects and of regions marked "uninit"
   bool dedupe = false;         // cross-path state deduplication at merge blocks         // undecided iterations of one branch before widening kicks in
   std::string reportRegion;
   int64_t reportLimit = -1;       // track the set of byte values written below this offset of the report region
